@@ -2,7 +2,7 @@
 """rs2lean.py — translate the pure sizing / hash / constant core of abyssiniandb to Lean 4.
 
 usage: rs2lean.py <repo> <outdir>      (writes <outdir>/Consts.lean, Funcs.lean, FileOps.lean, Engine.lean, FlushOps.lean,
-                                        ApiOps.lean)
+                                        ApiOps.lean, Registry.lean)
 
 The translator accepts a small, fixed Rust subset (see DESIGN.md §3.2) and FAILS LOUDLY
 (exit 2, message with file and construct) on anything else.  Integers become `Nat`;
@@ -74,9 +74,21 @@ pinned) and the database-level sync (inner/mod.rs `FileDbInner::{applay_all, syn
 `dbSyncAll`, `dbSyncData` in FlushOps.lean, monad `Abyss.DbRegM μ` over the five registries, `emit_dbsync`: the five blocks,
 their order and their shape pinned; the struct, the `db_map_<k>` lookups, the aliases `FileDbMapDb…`, the handle
 `FileDbMap<KT>` and the `sync_all` / `sync_data` wrappers of `FileDbMap<KT>` and `FileDb` pinned token-wise).
-When the translation fails, Funcs.lean (and FileOps.lean, Engine.lean; FileOps.lean and Engine.lean when the I/O
-stage failed, Engine.lean alone when only the engine stage failed; FlushOps.lean unless only the API stage failed; every time
-ApiOps.lean, the last stage) is replaced by a file that does not build.
+Eighth batch: the name registry (-> Registry.lean, `emit_registry`, class EmitReg, monad `Abyss.DbRegM μ` with the primitives of
+Abyss/RegM.lean).  File names: the path statements of the three `open_with_params` (between `let piece_mgr …;` and
+`let std_file …;`; no longer part of the pinned prefix IO_OPEN_PREFIX) must be exactly `let mut pb = path.as_ref().to_path_buf();
+pb.push(format!("…"));`, and the format string is translated literally (`io_file_name`, `io_format_parts`: inline `{ks_name}` and
+literal ASCII text; positional / formatted arguments, escapes, any other method of the path — `set_extension`, `join`, … — fail):
+`keyFileName`, `valFileName`, `htxFileName`.  `FileBufSizeParam`, `FileDbParams` and its `Default` (`reg_params`).  inner/mod.rs
+`FileDbInner`: the five lookups, the five inserts, the five `create_db_map*`; filedb/mod.rs `FileDb`: the five
+`db_map_<k>_with_params` and the five `db_map_<k>` (lists REG_INNER_FUNCS / REG_DB_FUNCS; ALL FIVE copies of a family are
+translated from their own text: which function a body calls and which registry field it names is taken from the source; the
+handle types `FileDbMapDb…` are checked; the `RefCell::borrow…` plumbing of `FileDb` is pinned by shape and dropped;
+`if let Some(m) = e { return Ok(m); }`, `match e { Some(m) => Ok(m), None => panic!(..) }`, `let _ = e;`;
+`FileDbMapDb<K>::open(self.path(), name, params)?` is the function parameter `opener`; the method sets of the two `impl`s,
+`FileDbInner::{open, path}`, `FileDb::{open, path}`, `FileDbMap::<KT>::open` pinned token-wise, REG_PINS).
+When the translation fails, the file of the failing stage and those of all later stages (order: Funcs.lean, FileOps.lean,
+Engine.lean, FlushOps.lean, ApiOps.lean, Registry.lean) are replaced by files that do not build.
 Python 3 standard library only.
 """
 import re
@@ -1872,12 +1884,12 @@ IO_OWNERS = {
 IO_FREE_OWNER = {IO_KEY: "KeyFree", IO_VAL: "ValFree", IO_HTX: "HtxFree"}
 
 # `open_with_params` of `KeyFile<KT>` / `ValueFile` / `HtxFile`: the statements in front of `let file_length … = file.seek_to_end()?;`
-# (the piece manager, the path, `OpenOptions`, the `match` on the buffer-size parameter that builds the buffer `file`) are
-# compared token-wise with this text and dropped (named in the doc comment); what follows is translated.
+# (the piece manager, `OpenOptions`, the `match` on the buffer-size parameter that builds the buffer `file`) are
+# compared token-wise with this text and dropped (named in the doc comment); what follows is translated.  The statements
+# between `let piece_mgr …;` and `let std_file …;` build the path of the file: they are TRANSLATED (io_file_name: the
+# name of the file inside the database directory, `Gen.<ext>FileName` of Registry.lean).
 IO_OPEN_PREFIX = """
     let piece_mgr = PieceMgr::new(&%(fo)s, &%(sa)s);
-    let mut pb = path.as_ref().to_path_buf();
-    pb.push(format!("{ks_name}.%(ext)s"));
     let std_file = OpenOptions::new().read(true).write(true).create(true).truncate(false).open(pb)?;
     let mut file = match params.%(ext)s_buf_size {
         FileBufSizeParam::Size(val) => {
@@ -4702,6 +4714,111 @@ def io_plumbing(f, st, handles):
 
 
 # the statement `let hash = HashValue::new(key_kt.hash_value());` that opens the four API functions
+def io_format_parts(where, lit, names):
+    """the format string of `format!("…")` with inline arguments only: [("lit", text) | ("var", name)]; `{name}` with `name`
+    in `names` (plain `Display` of a `&str`: the string itself) and literal text of printable ASCII; anything else fails"""
+    if not (len(lit) >= 2 and lit[0] == '"' and lit[-1] == '"'):
+        fail("%s: `format!` without a string literal as its format string" % where)
+    body, parts, i = lit[1:-1], [], 0
+
+    def put(ch):
+        if parts and parts[-1][0] == "lit":
+            parts[-1] = ("lit", parts[-1][1] + ch)
+        else:
+            parts.append(("lit", ch))
+
+    while i < len(body):
+        ch = body[i]
+        if ch == "{":
+            if body[i + 1:i + 2] == "{":
+                fail("%s: format string %s: escaped brace `{{`" % (where, lit))
+            j = body.find("}", i)
+            if j < 0:
+                fail("%s: format string %s: unterminated `{`" % (where, lit))
+            arg = body[i + 1:j]
+            if arg == "":
+                fail("%s: format string %s: positional argument `{}`" % (where, lit))
+            if not re.match(r"^[A-Za-z_][A-Za-z0-9_]*$", arg):
+                fail("%s: format string %s: argument `{%s}` is not a plain inline `{name}` (format specs / positions / `:?` are "
+                     "outside the subset)" % (where, lit, arg))
+            if arg not in names:
+                fail("%s: format string %s: `{%s}` is not one of the `&str` parameters %s" % (where, lit, arg, sorted(names)))
+            parts.append(("var", arg))
+            i = j + 1
+        elif ch == "}":
+            fail("%s: format string %s: `}` outside an argument" % (where, lit))
+        elif ch == "\\" or ch == '"' or not (" " <= ch <= "~"):
+            fail("%s: format string %s: escape sequence / non-ASCII character %r in the literal text" % (where, lit, ch))
+        else:
+            put(ch)
+            i += 1
+    return parts
+
+
+def io_file_name(where, feats, params, stmts, ext):
+    """the path statements of an `open_with_params` (token lists, each ending with `;`): exactly
+    `let mut pb = path.as_ref().to_path_buf();` (the database directory `path: P`, `P: AsRef<Path>`) and
+    `pb.push(format!("…{ks_name}…"));` — the formatted string is pushed onto the directory, i.e. it is the NAME of the file
+    inside the directory; `pb` is what `OpenOptions::…::open(pb)` opens (pinned with the rest of the prefix).
+    Value: (Lean name, Lean definition text)."""
+    if not stmts:
+        fail("%s: no statement between `let piece_mgr …;` and `let std_file …;` builds the path of the file" % where)
+    strs = dict((n, t) for n, t in params if t == "&str")
+    if ("path", "P") not in params or "ks_name" not in strs:
+        fail("%s: the parameters are not `path: P` (the directory) and `ks_name: &str` (the name of the map)" % where)
+    pp = P([("op", "{")] + [t for st in stmts for t in st] + [("op", "}")], feats, where)
+    pp.keep_try = True
+    body = pp.block()
+    if pp.dropped or pp.kept or body[2] is not None:
+        fail("%s: `#[cfg]` / a value among the path statements" % where)
+
+    def show(st):
+        if st[0] == "let":
+            return "let %s = %s;" % (" ".join(pat_vars(st[1])), rs_show(st[3]))
+        if st[0] == "expr":
+            return rs_show(st[1]) + ";"
+        return st[0] + " …"
+
+    want0 = ("let", ("pvar", "pb"), None, ("mcall", ("mcall", ("path", ["path"]), "as_ref", []), "to_path_buf", []), True)
+    if body[1][0] != want0:
+        fail("%s: the first path statement is `%s`, not `let mut pb = path.as_ref().to_path_buf();`" % (where, show(body[1][0])))
+    if len(body[1]) < 2:
+        fail("%s: nothing is pushed onto the path `pb` (the directory itself would be opened)" % where)
+    for x in body[1][1:]:
+        xe = x[1] if x[0] == "expr" else None
+        if xe is not None and xe[0] == "mcall" and xe[1] == ("path", ["pb"]) and xe[2] != "push":
+            fail("%s: the path of the file is built with `pb.%s(..)` (`%s`): only `pb.push(format!(\"…\"))` — a file name inside "
+                 "the directory — is in the subset (`set_extension` / `set_file_name` / `pop` replace or reinterpret parts of the "
+                 "path: `\"a.b\".set_extension(\"val\")` is `a.val`)" % (where, xe[2], show(x)))
+    st = body[1][1]
+    e = st[1] if st[0] == "expr" else None
+    if e is None or e[0] != "mcall" or e[1] != ("path", ["pb"]):
+        fail("%s: the second path statement is `%s`, not `pb.push(format!(\"…\"));`" % (where, show(st)))
+    if not (len(e[3]) == 1 and e[3][0][0] == "call" and e[3][0][1] == ["format!"]):
+        fail("%s: the argument of `pb.push(..)` is `%s`, not a `format!(\"…\")`" % (where, rs_show(e[3][0]) if e[3] else ""))
+    fa = e[3][0][2]
+    if len(fa) != 1 or fa[0][0] != "str":
+        fail("%s: `format!` with arguments after the format string / without a string literal (`%s`): only inline `{ks_name}` "
+             "is in the subset" % (where, show(st)))
+    if len(body[1]) > 2:
+        x = body[1][2]
+        xe = x[1] if x[0] == "expr" else None
+        what = "`pb.%s(..)`" % xe[2] if (xe is not None and xe[0] == "mcall" and xe[1] == ("path", ["pb"])) else "a statement"
+        fail("%s: %s after `pb.push(format!(..));` (`%s`): the path statements must be exactly `let mut pb = "
+             "path.as_ref().to_path_buf(); pb.push(format!(\"…\"));`" % (where, what, show(x)))
+    parts = io_format_parts(where, fa[0][1], strs)
+    if [p_ for p_ in parts if p_[0] == "var"] != [("var", "ks_name")]:
+        fail("%s: format string %s: `{ks_name}` does not occur exactly once" % (where, fa[0][1]))
+    term = " ++ ".join('"%s"' % t if k_ == "lit" else io_ident(t) for k_, t in parts)
+    lean = ext + "FileName"
+    text = ("/-- %s, the path statements `let mut pb = path.as_ref().to_path_buf(); pb.push(format!(%s));` — `pb` is what "
+            "`OpenOptions::new()….open(pb)?` opens (pinned): the NAME of the file inside the database directory `path` (`PathBuf::push` "
+            "of a relative name without separators appends one component; a `ks_name` that is absolute or contains `/` leaves the "
+            "directory: not modelled).  `{ks_name}` is the `Display` of the `&str` parameter `ks_name`, the string itself. -/\n"
+            "def %s (ksName : String) : String := %s\n" % (where, fa[0][1], lean, term))
+    return lean, text
+
+
 IO_HASH_STMT = ("let", ("pvar", "hash"), None,
                 ("call", ["HashValue", "new"], [("mcall", ("path", ["key_kt"]), "hash_value", [])]), False)
 
@@ -4761,6 +4878,7 @@ def io_build_fn(repo, feats, methods, spec, engine):
     f.handle_params = {}                                          # parameter -> kind of handle (`dbmap`, `piecea`)
     f.lock = IO_LOCKS.get(owner)
     f.open_kind = opts.get("open")                                # `open_with_params` of a handle (IO_OPEN)
+    f.file_name = None                                            # (Lean name, definition text) of the file name (io_file_name)
     f.caches = {}                                                 # cache struct -> the local that holds it
     f.buckets_of = False
     if rtxt == "Self" and state and recv is None:
@@ -4865,20 +4983,39 @@ def io_build_fn(repo, feats, methods, spec, engine):
                 cuts.append(j)
         if len(cuts) != 1:
             fail("%s: %d statements `let file_length …` at the top of the body (exactly one expected)" % (where, len(cuts)))
-        got = io_strip_tc([v for _k, v in btoks[1:cuts[0]]])
+        # the statements of the prefix; those between `let piece_mgr …;` and `let std_file …;` name the file
+        pre, depth, s0 = [], 0, 1
+        for j in range(1, cuts[0]):
+            v = btoks[j][1]
+            depth += (v in ("{", "(", "[")) - (v in ("}", ")", "]"))
+            if v == ";" and depth == 0:
+                pre.append(btoks[s0:j + 1])
+                s0 = j + 1
+        if s0 != cuts[0]:
+            fail("%s: the statements in front of `let file_length …` do not end with a `;`" % where)
+        lead = [[v for _k, v in st[:2]] for st in pre]
+        if lead.count(["let", "piece_mgr"]) != 1 or lead[:1] != [["let", "piece_mgr"]] or lead.count(["let", "std_file"]) != 1:
+            fail("%s: the statements in front of `let file_length …` do not start with `let piece_mgr …;` / have not exactly one "
+                 "`let std_file …;`" % where)
+        k_sf = lead.index(["let", "std_file"])
+        f.file_name = io_file_name(where, feats, params, pre[1:k_sf], subst["ext"])
+        got = io_strip_tc([v for st in pre[:1] + pre[k_sf:] for _k, v in st])
         want = io_strip_tc([v for _k, v in tokenize(IO_OPEN_PREFIX % subst)])
         if got != want:
             k_ = next((i for i, (a_, b_) in enumerate(zip(got, want)) if a_ != b_), min(len(got), len(want)))
-            fail("%s: the statements in front of `let file_length …` (piece manager, path, `OpenOptions`, the `match params.%s_buf_size` "
-                 "that builds the buffer) are not the ones the translation is configured for; first difference at token %d: "
+            fail("%s: the statements in front of `let file_length …` (piece manager, `OpenOptions`, the `match params.%s_buf_size` "
+                 "that builds the buffer; without the path statements) are not the ones the translation is configured for; first "
+                 "difference at token %d: "
                  "`… %s` (source) / `… %s` (configured)" % (where, subst["ext"], k_, " ".join(got[max(0, k_ - 3):k_ + 4]),
                                                            " ".join(want[max(0, k_ - 3):k_ + 4])))
         btoks = [btoks[0]] + btoks[cuts[0]:]
         f.pre_notes.append("the statements in front of `let file_length …`, compared token-wise with the configured text on every run: "
-                           "`let piece_mgr = PieceMgr::new(&%s, &%s);` (the `FileCfg` of the file), the path `<path>/{ks_name}.%s`, "
+                           "`let piece_mgr = PieceMgr::new(&%s, &%s);` (the `FileCfg` of the file), "
                            "`OpenOptions::new().read(true).write(true).create(true).truncate(false).open(pb)?`, `let mut file = match "
-                           "params.%s_buf_size { … };` (the buffer around the file: `VarFile::with_capacity` / `with_per_mille` / `new`)"
-                           % (subst["fo"], subst["sa"], subst["ext"], subst["ext"]))
+                           "params.%s_buf_size { … };` (the buffer around the file: `VarFile::with_capacity` / `with_per_mille` / `new`); "
+                           "the path statements between the first two (`let mut pb = path.as_ref().to_path_buf(); "
+                           "pb.push(format!(…));`) are translated: `%s` of Registry.lean is the name of the file in the directory `path`"
+                           % (subst["fo"], subst["sa"], subst["ext"], f.file_name[0]))
     p = P(btoks, feats, where)
     p.keep_try = True
     f.body = p.block()
@@ -5436,6 +5573,501 @@ def emit_dbsync(repo, feats, methods):
                      "def %s {β : Type} (p : FilePrims β) : DbRegM (MapSt β × Nat) Unit := do\n  dbApplyAll (FlushM.onMap (%s p))\n"
                      % (IO_MOD, DB_IMPL, rust, m, m, m, acts[m], rust, rust, lean, acts[m]))
     return texts
+
+
+# ----------------------------------------------------------------------------- the name registry (Registry.lean)
+# `FileDbInner` (inner/mod.rs): lookups, inserts, `create_db_map*`; `FileDb` (filedb/mod.rs): `db_map_<k>[_with_params]`.
+# All five copies of every family are translated, each from its own source text.  (rust name, Lean name), callees first.
+REG_DB_IMPL = "impl FileDb"
+REG_INNER_FUNCS = [
+    ("db_map_bytes", "innerDbMapBytes"), ("db_map_string", "innerDbMapString"), ("db_map_i64", "innerDbMapI64"),
+    ("db_map_u64", "innerDbMapU64"), ("db_map_vu64", "innerDbMapVu64"),
+    ("db_map_bytes_insert", "dbMapBytesInsert"), ("db_map_insert", "dbMapInsert"), ("db_map_dbi64_insert", "dbMapDbi64Insert"),
+    ("db_map_dbu64_insert", "dbMapDbu64Insert"), ("db_map_dbvu64_insert", "dbMapDbvu64Insert"),
+    ("create_db_map", "createDbMap"), ("create_db_map_bytes", "createDbMapBytes"), ("create_db_map_dbi64", "createDbMapDbi64"),
+    ("create_db_map_dbu64", "createDbMapDbu64"), ("create_db_map_dbvu64", "createDbMapDbvu64"),
+]
+REG_DB_FUNCS = [
+    ("db_map_string_with_params", "dbMapStringWithParams"), ("db_map_bytes_with_params", "dbMapBytesWithParams"),
+    ("db_map_i64_with_params", "dbMapI64WithParams"), ("db_map_u64_with_params", "dbMapU64WithParams"),
+    ("db_map_vu64_with_params", "dbMapVu64WithParams"),
+    ("db_map_string", "dbMapString"), ("db_map_bytes", "dbMapBytes"), ("db_map_i64", "dbMapI64"), ("db_map_u64", "dbMapU64"),
+    ("db_map_vu64", "dbMapVu64"),
+]
+# the other methods of the two `impl`s: pinned / translated elsewhere (FlushOps.lean); a method that is in neither list fails
+REG_INNER_OTHER = ("open", "path", "sync_all", "sync_data", "applay_all")
+REG_DB_OTHER = ("open", "path", "sync_all", "sync_data")
+REG_PINS = [
+    (IO_MOD, DB_IMPL, "open",
+     "fn open<P: AsRef<Path>>(path: P) -> Result<FileDbInner> { let path = path.as_ref(); if !path.is_dir() { "
+     "std::fs::create_dir_all(path)?; } Ok(FileDbInner { db_bytes_map: BTreeMap::new(), db_string_map: BTreeMap::new(), "
+     "db_i64_map: BTreeMap::new(), db_u64_map: BTreeMap::new(), db_vu64_map: BTreeMap::new(), path: path.to_path_buf(), }) }"),
+    (IO_MOD, DB_IMPL, "path", "fn path(&self) -> &Path { self.path.as_path() }"),
+    (IO_MOD_RS, REG_DB_IMPL, "open",
+     "fn open<P: AsRef<Path>>(path: P) -> Result<Self> { Ok(Self(Rc::new(RefCell::new(FileDbInner::open(path)?)))) }"),
+    (IO_MOD_RS, REG_DB_IMPL, "path", "fn path(&self) -> PathBuf { RefCell::borrow(&self.0).path().to_path_buf() }"),
+    ("src/filedb/dbmap/mod.rs", "impl<KT: DbMapKeyType> FileDbMap<KT>", "open",
+     "fn open<P: AsRef<Path>>(path: P, ks_name: &str, params: FileDbParams,) -> Result<FileDbMap<KT>> { "
+     "Ok(Self(Rc::new(RefCell::new(FileDbXxxInner::<KT>::open_with_params(path, ks_name, params)?,)))) }"),
+]
+REG_BUFSIZE_ENUM = "#[derive(Debug, Clone)] pub enum FileBufSizeParam { Size(u32), PerMille(u16), Auto, }"
+REG_ENUMS = {"FileBufSizeParam": {"Size": ("size", 32), "PerMille": ("perMille", 16), "Auto": ("auto", None)},
+             "HashBucketsParam": {"BucketsSize": ("bucketsSize", 64), "Capacity": ("capacity", 64), "Default": ("default", None)}}
+
+
+def rs_show(e):
+    """source-like text of an expression (for messages and doc comments)"""
+    k = e[0]
+    if k == "path":
+        return "::".join(e[1])
+    if k == "field":
+        return rs_show(e[1]) + "." + e[2]
+    if k == "mcall":
+        return "%s.%s(%s)" % (rs_show(e[1]), e[2], ", ".join(rs_show(a) for a in e[3]))
+    if k == "call":
+        return "%s(%s)" % ("::".join(e[1]), ", ".join(rs_show(a) for a in e[2]))
+    if k == "try":
+        return rs_show(e[1]) + "?"
+    if k in ("str", "num"):
+        return str(e[1])
+    if k == "tuple":
+        return "(%s)" % ", ".join(rs_show(a) for a in e[1])
+    if k == "panicx":
+        return "panic!(..)"
+    if k == "match":
+        return "match %s { … }" % rs_show(e[1])
+    if k == "iflet":
+        return "if let … = %s { … }" % rs_show(e[2])
+    return "<%s>" % k
+
+
+def reg_kind_of_type(t):
+    """`FileDbMapDbU64` -> `u64` (the aliases `pub type FileDbMapDbU64 = FileDbMap<DbU64>;` are pinned, emit_dbsync)"""
+    for k, ty, _f in DB_KINDS:
+        if t == "FileDbMap" + ty:
+            return k
+    return None
+
+
+def reg_type(text, where):
+    """type of a parameter / of the value"""
+    if text == "&str":
+        return "name"
+    if text == "FileDbParams":
+        return "params"
+    if reg_kind_of_type(text):
+        return ("handle", reg_kind_of_type(text))
+    m = re.match(r"^Option<(\w+)>$", text)
+    if m and reg_kind_of_type(m.group(1)):
+        return ("opt", reg_kind_of_type(m.group(1)))
+    m = re.match(r"^Result<(\w+|\(\))>$", text)
+    if m and m.group(1) == "()":
+        return ("res", "unit")
+    if m and reg_kind_of_type(m.group(1)):
+        return ("res", ("handle", reg_kind_of_type(m.group(1))))
+    fail("%s: type `%s` is outside the subset of the registry functions (`&str`, `FileDbParams`, `FileDbMapDb…`, "
+         "`Option<FileDbMapDb…>`, `Result<()>`, `Result<FileDbMapDb…>`)" % (where, text))
+
+
+def reg_show_ty(t):
+    """a type of the registry subset, as the source writes it"""
+    names = dict((k, "FileDbMap" + ty) for k, ty, _f in DB_KINDS)
+    if t == "name":
+        return "`&str`"
+    if t == "params":
+        return "`FileDbParams`"
+    if t == "unit":
+        return "`()`"
+    if t[0] == "handle":
+        return "`%s`" % names[t[1]]
+    if t[0] == "opt":
+        return "`Option<%s>`" % names[t[1]]
+    if t[0] in ("res", "tried"):
+        return "`Result<%s>`" % reg_show_ty(t[1]).strip("`") if t[0] == "res" else reg_show_ty(t[1])
+    return str(t)
+
+
+def reg_lean_ty(t):
+    if t == "name":
+        return "String"
+    if t == "params":
+        return "FileDbParams"
+    if t == "unit":
+        return "Unit"
+    if t[0] == "handle":
+        return "μ"
+    if t[0] == "opt":
+        return "Option μ"
+    if t[0] == "res":
+        return reg_lean_ty(t[1])
+    raise AssertionError(t)
+
+
+class RegFn:
+    pass
+
+
+class EmitReg:
+    """one function of the registry subset -> a definition in `DbRegM μ`"""
+
+    def __init__(self, f, table):
+        self.f = f
+        self.where = f.where
+        self.table = table          # (owner, rust name) -> RegFn translated before
+        self.opener = False
+
+    def bad(self, what):
+        fail("%s: %s" % (self.where, what))
+
+    # ---- pure arguments
+    def pure(self, e, env):
+        if e[0] == "path" and len(e[1]) == 1 and e[1][0] in env:
+            return io_ident(e[1][0]), env[e[1][0]]
+        if e == ("call", ["FileDbParams", "default"], []):
+            return "FileDbParams.default", "params"
+        if e == ("tuple", []):
+            return "()", "unit"
+        self.bad("`%s` is not a parameter / local variable / `FileDbParams::default()`" % rs_show(e))
+
+    def args(self, g, args, env, what):
+        if len(args) != len(g.params):
+            self.bad("`%s`: %d arguments, `%s` has %d parameters" % (what, len(args), g.rust, len(g.params)))
+        out = []
+        for a, (pn, pt) in zip(args, g.params):
+            t, ty = self.pure(a, env)
+            if ty != pt:
+                self.bad("`%s`: the argument `%s` is a %s, the parameter `%s` of `%s` a %s (the source does not type-check)"
+                         % (what, rs_show(a), reg_show_ty(ty), pn, g.rust, reg_show_ty(pt)))
+            out.append(t)
+        self.opener = self.opener or g.opener
+        return " ".join([g.lean] + (["opener"] if g.opener else []) + out)
+
+    def registry(self, e):
+        """`self.db_<k>_map` -> k"""
+        if e[0] == "field" and e[1] == ("path", ["self"]) and self.f.owner == "inner":
+            m = re.match(r"^db_([a-z0-9]+)_map$", e[2])
+            if m and m.group(1) in [x[0] for x in DB_KINDS]:
+                return m.group(1)
+        return None
+
+    # ---- actions: (Lean term of type `DbRegM μ _`, type of the value [("res", t): a `Result`])
+    def action(self, e, env):
+        f = self.f
+        if e[0] == "try":
+            t, ty = self.action(e[1], env)
+            if ty[0] != "res":
+                self.bad("`?` on `%s`, which is not a `Result`" % rs_show(e[1]))
+            return t, ("tried", ty[1])
+        if e[0] == "mcall":
+            recv, m, args = e[1], e[2], e[3]
+            # the registry itself
+            if recv[0] == "mcall" and self.registry(recv[1]) and m == "cloned" and not args and recv[2] == "get":
+                k = self.registry(recv[1])
+                if len(recv[3]) != 1:
+                    self.bad("`%s`: `get` with %d arguments" % (rs_show(e), len(recv[3])))
+                t, ty = self.pure(recv[3][0], env)
+                if ty != "name":
+                    self.bad("`%s`: the key is not a `&str`" % rs_show(e))
+                return "DbRegM.lookup .%s %s" % (k, t), ("opt", k)
+            if self.registry(recv):
+                k = self.registry(recv)
+                if m == "insert" and len(args) == 2 and args[0][0] == "mcall" and args[0][2] == "to_string" and not args[0][3]:
+                    tn, tyn = self.pure(args[0][1], env)
+                    tc, tyc = self.pure(args[1], env)
+                    if tyn != "name":
+                        self.bad("`%s`: the key is not `<&str>.to_string()`" % rs_show(e))
+                    if tyc != ("handle", k):
+                        self.bad("`%s`: the value is a %s, the registry `db_%s_map` holds %s (the source does not type-check)"
+                                 % (rs_show(e), reg_show_ty(tyc), k, reg_show_ty(("handle", k))))
+                    return "DbRegM.insert .%s %s %s" % (k, tn, tc), ("opt", k)
+                self.bad("`%s`: the method `%s` of the registry `db_%s_map` is outside the subset (`.get(name).cloned()`, "
+                         "`.insert(name.to_string(), child)`)" % (rs_show(e), m, k))
+            # a translated method, through the `RefCell` plumbing (pinned by shape, dropped)
+            owner, borrow = None, None
+            if recv == ("path", ["self"]):
+                owner = f.owner
+            elif f.owner == "db" and recv[0] == "call" and recv[1] in (["RefCell", "borrow"], ["RefCell", "borrow_mut"]) \
+                    and recv[2] == [("field", ("path", ["self"]), "0")]:
+                owner, borrow = "inner", recv[1][1]
+            else:
+                self.bad("`%s`: the receiver `%s` is not `self` / `RefCell::borrow(&self.0)` / `RefCell::borrow_mut(&self.0)` / a "
+                         "registry `self.db_<k>_map`" % (rs_show(e), rs_show(recv)))
+            g = self.table.get((owner, m))
+            if g is None:
+                self.bad("`%s`: `%s` is not a translated method of `%s`" % (rs_show(e), m, "FileDbInner" if owner == "inner" else "FileDb"))
+            if g.recv == "&mut self" and (borrow == "borrow" or (borrow is None and f.recv != "&mut self")):
+                self.bad("`%s`: `%s` takes `&mut self`, the receiver is a shared borrow (the source does not type-check)" % (rs_show(e), m))
+            return self.args(g, args, env, rs_show(e)), g.ret
+        if e[0] == "call" and len(e[1]) == 2 and e[1][1] == "open" and reg_kind_of_type(e[1][0]):
+            k = reg_kind_of_type(e[1][0])
+            a = e[2]
+            if f.owner != "inner" or len(a) != 3 or a[0] != ("mcall", ("path", ["self"]), "path", []):
+                self.bad("`%s` is not `%s::open(self.path(), <name>, <params>)` in a method of `FileDbInner`" % (rs_show(e), e[1][0]))
+            tn, tyn = self.pure(a[1], env)
+            tp, typ = self.pure(a[2], env)
+            if (tyn, typ) != ("name", "params"):
+                self.bad("`%s`: the arguments after `self.path()` are not a `&str` and a `FileDbParams`" % rs_show(e))
+            self.opener = True
+            return "DbRegM.openMap opener .%s %s %s" % (k, tn, tp), ("res", ("handle", k))
+        self.bad("`%s` is outside the subset of the registry functions" % rs_show(e))
+
+    # ---- an expression in value position of the function
+    def tail(self, e, env):
+        ret = self.f.ret
+        if e[0] == "call" and e[1] == ["Ok"] and len(e[2]) == 1:
+            t, ty = self.pure(e[2][0], env)
+            if ret != ("res", ty):
+                self.bad("`%s`: the value is a %s, the function returns %s" % (rs_show(e), reg_show_ty(ty), reg_show_ty(ret)))
+            return ["pure %s" % t]
+        if e[0] == "panicx":
+            return ["DbRegM.panic"]
+        if e[0] == "match":
+            t, ty = self.action(e[1], env)
+            if ty[0] != "opt":
+                self.bad("`%s`: the scrutinee is not an `Option<FileDbMapDb…>` (value of a lookup / an insert)" % rs_show(e))
+            arms = e[2]
+            if sorted((tuple(p_), b is not None) for p_, b, _x in arms) != [(("None",), False), (("Some",), True)]:
+                self.bad("`%s`: the arms are not `Some(<v>)` and `None`" % rs_show(e))
+            lines = ["match (← %s) with" % t]
+            for p_, b, body in arms:
+                env2 = dict(env)
+                if b is not None:
+                    if b in env or b == "()":
+                        self.bad("`%s`: the binder `%s` shadows a variable" % (rs_show(e), b))
+                    env2[b] = ("handle", ty[1])
+                sub = self.tail(body, env2)
+                head = "| some %s =>" % io_ident(b) if b is not None else "| none =>"
+                lines += [head + " " + sub[0]] if len(sub) == 1 else [head + " do"] + ind(sub, 4)
+            return lines
+        t, ty = self.action(e, env)
+        if ty != ret:
+            self.bad("the value `%s` is %s, the function returns %s" % (rs_show(e), reg_show_ty(ty), reg_show_ty(ret)))
+        return [t]
+
+    def seq(self, stmts, tail, env):
+        if not stmts:
+            if tail is None:
+                self.bad("the body has no value (`Ok(..)` / a call / a `match` in last position)")
+            return self.tail(tail, env)
+        st, rest = stmts[0], stmts[1:]
+        if st[0] == "let":
+            if st[1][0] != "pvar":
+                self.bad("`let` with a pattern")
+            v = st[1][1]
+            t, ty = self.action(st[3], env)
+            if ty[0] == "res":
+                self.bad("`let %s = %s;` binds a `Result` without `?`" % (v, rs_show(st[3])))
+            ty = ty[1] if ty[0] == "tried" else ty
+            if st[2] is not None and reg_type(st[2], self.where) != ty:
+                self.bad("`let %s: %s = %s;`: the value is a %s (the source does not type-check)" % (v, st[2], rs_show(st[3]), reg_show_ty(ty)))
+            env2 = dict(env)
+            if v != "_":
+                if v in env:
+                    self.bad("`let %s` shadows a variable" % v)
+                env2[v] = ty
+            return ["let %s ← %s" % (io_ident(v), t)] + self.seq(rest, tail, env2)
+        if st[0] == "expr" and st[1][0] == "try":
+            t, ty = self.action(st[1], env)
+            if ty != ("tried", "unit"):
+                self.bad("the statement `%s;` drops a value" % rs_show(st[1]))
+            return [t] + self.seq(rest, tail, env)
+        if st[0] == "expr" and st[1][0] == "iflet":
+            _k, pat, scrut, then, els = st[1]
+            if els is not None or not (pat[0] == "pctor" and pat[1] == "Some" and len(pat[2]) == 1 and pat[2][0][0] == "pvar"):
+                self.bad("`%s`: not `if let Some(<v>) = <lookup> { … }` without `else`" % rs_show(st[1]))
+            t, ty = self.action(scrut, env)
+            if ty[0] != "opt":
+                self.bad("`%s`: the scrutinee is not an `Option<FileDbMapDb…>` (value of a lookup / an insert)" % rs_show(st[1]))
+            v = pat[2][0][1]
+            if v in env:
+                self.bad("`%s`: the binder `%s` shadows a variable" % (rs_show(st[1]), v))
+            if not then[1] and then[2] is None:
+                # `if let Some(m) = e { }`: `e` is evaluated (the registries are read), nothing else
+                return ["let _ ← %s" % t] + self.seq(rest, tail, env)
+            if len(then[1]) == 1 and then[2] is None and then[1][0][0] == "return" and then[1][0][1] is not None:
+                env2 = dict(env)
+                env2[v] = ("handle", ty[1])
+                sub = self.tail(then[1][0][1], env2)
+                if len(sub) != 1:
+                    self.bad("`%s`: the returned value is not `Ok(<v>)`" % rs_show(st[1]))
+                return ["match (← %s) with" % t, "| some %s => %s" % (io_ident(v), sub[0]), "| none => do"] + ind(self.seq(rest, tail, env), 4)
+            self.bad("`%s`: the block is neither `{ return Ok(<v>); }` nor empty" % rs_show(st[1]))
+        what = {"return": "`return` outside `if let Some(..) = .. { return Ok(..); }`", "assign": "an assignment", "for": "a `for` loop",
+                "while": "a `while` loop", "loop": "a `loop`", "panic": "`panic!(..);` as a statement", "assert": "`assert!`",
+                "dassert": "`%s`" % (st[1] if len(st) > 1 else "assert")}.get(st[0])
+        if what is None:
+            what = "the statement `%s;`" % rs_show(st[1]) if st[0] == "expr" else "a statement of kind `%s`" % st[0]
+        self.bad("%s is outside the subset of the registry functions (`let v = <call>[?];`, `<call>?;`, `if let Some(m) = <lookup> "
+                 "{ return Ok(m); }`, and `Ok(..)` / `<call>` / `match <lookup> { Some(m) => .., None => panic!(..) }` in last "
+                 "position)" % what)
+
+
+def reg_translate(repo, feats, methods, owner, rel, header, rust, lean, table):
+    where = "%s::<%s>::%s" % (rel, header, rust)
+    cands = methods[(rel, header)].get(rust, [])
+    if len(cands) != 1:
+        fail("%s: %d definitions with a true `#[cfg]` (exactly one expected)" % (where, len(cands)))
+    toks, blockdesc = cands[0]
+    if toks[2][1] == "<":
+        fail("%s: generic parameters" % where)
+    recv, params, ret, ib = io_parse_sig(toks, where)
+    f = RegFn()
+    f.owner, f.rust, f.lean, f.where, f.recv = owner, rust, lean, where, recv
+    f.params = [(n, reg_type(t, where)) for n, t in params]
+    f.ret = reg_type(ret, where)
+    if any(isinstance(t, tuple) and t[0] != "handle" for _n, t in f.params) or f.ret in ("name", "params") or f.ret[0] == "handle":
+        fail("%s: parameter / return types outside the subset" % where)
+    pp = P(toks[ib:], feats, where)
+    pp.keep_try = True
+    body = pp.block()
+    if pp.i != len(toks) - ib or pp.dropped or pp.kept:
+        fail("%s: tokens after the body / `#[cfg]` statements" % where)
+    em = EmitReg(f, table)
+    lines = em.seq(body[1], body[2], dict(f.params))
+    f.opener = em.opener
+    sig = "".join(" (%s : %s)" % (io_ident(n), reg_lean_ty(t)) for n, t in f.params)
+    src = " ".join(v for _k, v in toks)
+    src = re.sub(r" ([,;.)?\]:>])", r"\1", re.sub(r"([(.&\[!<]) ", r"\1", src.replace(" :: ", "::"))).replace(" (", "(").replace(" <", "<")
+    src = src.replace("->Result", "-> Result").replace("->Option", "-> Option").replace(",)", ")")
+    f.text = ("/-- %s %s, `%s` -/\ndef %s {μ : Type}%s%s : DbRegM μ (%s) := do\n%s\n"
+              % (rel, blockdesc, src, lean, " (opener : Opener FileDbParams μ)" if f.opener else "", sig, reg_lean_ty(f.ret),
+                 "\n".join(ind(lines))))
+    f.text = f.text.replace("(Unit)", "Unit").replace(": DbRegM μ (μ)", ": DbRegM μ μ")
+    return f
+
+
+def reg_params(repo, feats):
+    """`FileBufSizeParam`, `FileDbParams` and `impl Default for FileDbParams` -> Lean texts"""
+    io_pin_tokens(repo, IO_MOD_RS, "pub enum FileBufSizeParam", REG_BUFSIZE_ENUM, "the definition of `FileBufSizeParam`")
+    got = io_find_item_tokens(repo, IO_MOD_RS, "pub struct FileDbParams")
+    head = [v for _k, v in tokenize("#[derive(Debug, Clone)] pub struct FileDbParams {")]
+    if got[:len(head)] != head or got[-1] != "}":
+        fail("%s: `FileDbParams` is not `#[derive(Debug, Clone)] pub struct FileDbParams { … }`" % IO_MOD_RS)
+    inner = got[len(head):-1]
+    fields = []
+    while inner:
+        if len(inner) < 5 or inner[0] != "pub" or inner[2] != ":" or inner[3] not in REG_ENUMS or inner[4] != ",":
+            fail("%s: `FileDbParams`: a field is not `pub <name>: FileBufSizeParam | HashBucketsParam,` (at `%s`)" % (IO_MOD_RS, " ".join(inner[:5])))
+        fields.append((inner[1], inner[3]))
+        inner = inner[5:]
+    if ("buckets_size", "HashBucketsParam") not in fields:
+        fail("%s: `FileDbParams` has no field `buckets_size: HashBucketsParam`" % IO_MOD_RS)
+    texts = ["/-- %s `pub enum FileBufSizeParam` (pinned) -/\ninductive FileBufSizeParam where\n  | size (x : Nat)\n  | perMille (x : Nat)\n"
+             "  | auto\n  deriving Repr, DecidableEq\n" % IO_MOD_RS,
+             "/-- %s `pub struct FileDbParams`; the buffer sizes only reach the pinned and dropped parts of the three "
+             "`open_with_params` (FileOps.lean), `buckets_size` is the parameter `p` of `Gen.openMap` (Engine.lean) -/\n"
+             "structure FileDbParams where\n%s\n  deriving Repr, DecidableEq\n"
+             % (IO_MOD_RS, "\n".join("  %s : %s" % (io_ident(n), t) for n, t in fields))]
+    header = "impl std::default::Default for FileDbParams"
+    where = "%s::<%s>::default" % (IO_MOD_RS, header)
+    cands = io_find_methods(repo, feats, IO_MOD_RS, header).get("default", [])
+    if len(cands) != 1:
+        fail("%s: %d definitions (exactly one expected)" % (where, len(cands)))
+    toks = cands[0][0]
+    tv = [v for _k, v in toks]
+    if tv[:7] != ["fn", "default", "(", ")", "->", "Self", "{"]:
+        fail("%s: the signature is not `fn default() -> Self`" % where)
+    pp = P(toks[6:], feats, where)
+    pp.keep_try = True
+    body = pp.block()
+    if pp.i != len(toks) - 6 or pp.dropped or pp.kept or body[1] or body[2] is None or body[2][0] != "structlit":
+        fail("%s: the body is not a struct literal `Self { … }`" % where)
+    lit = body[2][2]
+    if [x[0] for x in lit] != [n for n, _t in fields]:
+        fail("%s: the struct literal does not set the fields %s in this order" % (where, [n for n, _t in fields]))
+    vals = []
+    for (fname, e), (_n, ety) in zip(lit, fields):
+        path, arg = (e[1], None) if e[0] == "path" else ((e[1], e[2]) if e[0] == "call" else (None, None))
+        if path is None or len(path) != 2 or path[0] != ety or path[1] not in REG_ENUMS[ety]:
+            fail("%s: the value of `%s` (`%s`) is not a constructor of `%s`" % (where, fname, rs_show(e), ety))
+        ctor, width = REG_ENUMS[ety][path[1]]
+        if (width is None) != (arg is None) or (arg is not None and (len(arg) != 1 or arg[0][0] != "num" or not 0 <= arg[0][1] < 2 ** width)):
+            fail("%s: the value of `%s` (`%s`): the argument is not an integer literal of the constructor's type" % (where, fname, rs_show(e)))
+        vals.append("%s := .%s%s" % (io_ident(fname), ctor, " %d" % arg[0][1] if arg is not None else ""))
+    texts.append("/-- %s `%s`, `fn default` -/\ndef FileDbParams.default : FileDbParams :=\n  { %s }\n"
+                 % (IO_MOD_RS, header, ",\n    ".join(vals)))
+    return texts
+
+
+def emit_registry(repo, feats, out, done, methods):
+    # ---- what the statements mean
+    for rel, header, name, want in REG_PINS:
+        fl_pin_method(repo, feats, methods, rel, header, name, want)
+    methods[(IO_MOD_RS, REG_DB_IMPL)] = io_find_methods(repo, feats, IO_MOD_RS, REG_DB_IMPL)
+    for rel, header, funcs, other, what in ((IO_MOD, DB_IMPL, REG_INNER_FUNCS, REG_INNER_OTHER, "FileDbInner"),
+                                            (IO_MOD_RS, REG_DB_IMPL, REG_DB_FUNCS, REG_DB_OTHER, "FileDb")):
+        have, want = sorted(methods[(rel, header)]), sorted([r for r, _l in funcs] + list(other))
+        if have != want:
+            fail("%s::<%s>: the methods are %s, the translation is configured for %s (a method that is not listed may change the "
+                 "registries of `%s`: not translated: %s)" % (rel, header, have, want, what, sorted(set(have) ^ set(want))))
+    texts = []
+    # ---- the file names
+    names = []
+    for owner in ("KeyFileOpen", "ValueFileOpen", "HtxFileOpen"):
+        g = done.get((owner, "open_with_params"))
+        if g is None or g.file_name is None:
+            fail("Registry: `%s::open_with_params` has no translated path statements" % owner)
+        names.append(g.file_name[0])
+        texts.append(g.file_name[1])
+    texts.append("/-- the file names of a map, in the order in which `FileDbXxxInner::open_with_params` opens them (key file, value file, "
+                 "table file; pinned, Engine.lean `openMap`): all three `open_with_params` get the same `&path` and `ks_name` -/\n"
+                 "def mapFileNames (ksName : String) : List String := [%s]\n" % ", ".join("%s ksName" % n for n in names))
+    texts += reg_params(repo, feats)
+    texts.append("/-- %s `FileDbInner::open` (pinned): `Ok(FileDbInner { db_bytes_map: BTreeMap::new(), db_string_map: BTreeMap::new(), "
+                 "db_i64_map: BTreeMap::new(), db_u64_map: BTreeMap::new(), db_vu64_map: BTreeMap::new(), path: path.to_path_buf() })`: "
+                 "a database object starts with five empty registries -/\n"
+                 "def dbRegNew {μ : Type} : Abyss.DbReg μ := ⟨[], [], [], [], []⟩\n" % IO_MOD)
+    # ---- the functions
+    table, listing = {}, []
+    for owner, rel, header, funcs in (("inner", IO_MOD, DB_IMPL, REG_INNER_FUNCS), ("db", IO_MOD_RS, REG_DB_IMPL, REG_DB_FUNCS)):
+        for rust, lean in funcs:
+            f = reg_translate(repo, feats, methods, owner, rel, header, rust, lean, table)
+            table[(owner, rust)] = f
+            texts.append(f.text)
+            listing.append(lean)
+    if len(set(listing)) != len(listing):
+        fail("Registry: two functions with the same Lean name")
+    with open(os.path.join(out, "Registry.lean"), "w") as fh:
+        fh.write("import Abyss.RegM\nimport Abyss.Gen.Funcs\n")
+        fh.write(REG_HEADER)
+        fh.write("namespace Abyss.Gen\nopen Abyss (DbRegM RegKind Opener)\n\n")
+        fh.write("\n".join(texts))
+        fh.write("\nend Abyss.Gen\n")
+    return len(texts)
+
+
+REG_HEADER = """/-! GENERATED by tools/rs2lean.py from /repo — do not edit.
+The name registry of a database object.
+
+* File names.  `keyFileName` / `valFileName` / `htxFileName`: the path statements of `KeyFile::open_with_params`,
+  `ValueFile::open_with_params`, `HtxFile::open_with_params` (`let mut pb = path.as_ref().to_path_buf();
+  pb.push(format!("{ks_name}.<ext>"));`): the format string is translated literally (`{ks_name}` = the `&str` parameter,
+  the rest literal text; anything else in it fails the translation), and the statements must be exactly these two, so the
+  string is PUSHED onto the directory path: a file name inside the database directory.  `ks_name` is the `name` of the
+  registry functions below: `FileDbMap::<KT>::open(path, ks_name, params)` (pinned) passes it to
+  `FileDbXxxInner::open_with_params` (pinned, Engine.lean), which passes `&path, ks_name` to all three.
+* `FileBufSizeParam`, `FileDbParams`, `FileDbParams.default` (src/filedb/mod.rs; `HashBucketsParam` is in Funcs.lean).
+* The registry functions, in `Abyss.DbRegM μ` (Abyss/FlushM.lean, Abyss/RegM.lean): state = the five registries
+  `db_<k>_map: BTreeMap<String, FileDbMap<…>>` of `FileDbInner`; failure = `Err` / panic.  `μ` = an entry of a registry, a
+  `FileDbMap<KT>` = `Rc<RefCell<FileDbXxxInner<KT>>>` (pinned): the handle IS the shared state of the map, a clone of it is
+  the same map.  ALL FIVE copies of each family are translated, each from its own source text:
+  - src/filedb/inner/mod.rs `impl FileDbInner`: the lookups `db_map_<k>` (`self.db_<k>_map.get(name).cloned()` is
+    `DbRegM.lookup .<k> name`, the registry is the one the FIELD names), the inserts (`self.db_<k>_map.insert(
+    name.to_string(), child)` is `DbRegM.insert .<k> name child`; value = the previous entry), the `create_db_map*`
+    (`FileDbMapDb<K>::open(self.path(), name, params)?` is `DbRegM.openMap opener .<k> name params`, `<k>` from the TYPE the
+    call names; `opener` = `FileDbMap::<KT>::open` on the directory `self.path()`, a parameter of the generated function;
+    `let _ = …;` discards the value);
+  - src/filedb/mod.rs `impl FileDb`: `db_map_<k>_with_params` and `db_map_<k>`.  `RefCell::borrow(&self.0).m(..)` /
+    `RefCell::borrow_mut(&self.0).m(..)` is the call of the translated method `m` of `FileDbInner` (the `RefCell` plumbing of
+    `FileDb(Rc<RefCell<FileDbInner>>)`, pinned, is dropped; a `&mut self` method behind `borrow` fails the translation).
+    `if let Some(m) = e { return Ok(m); } rest` is `match (← e) with | some m => pure m | none => do rest`; `e?` is the bind
+    of the monad, `Ok(e)` is `pure e`, `panic!(..)` is `DbRegM.panic`, `FileDbParams::default()` is `FileDbParams.default`.
+  The types of the handles (`FileDbMapDbU64` …) are checked while translating (an insert of a handle into the registry of
+  another key type does not type-check and fails the translation); WHICH function a body calls and WHICH registry a body
+  names is taken from the source as it is.  The method sets of `impl FileDbInner` and `impl FileDb` are compared with the
+  configured ones on every run (a new method might change the registries).
+-/
+"""
 
 
 FL_HEADER = """/-! GENERATED by tools/rs2lean.py from /repo — do not edit.
@@ -6530,8 +7162,11 @@ def main():
     n_fl = emit_flushops(repo, feats, out, done, methods)
     STAGE = "api"
     n_api = emit_apiops(repo, feats, out, methods)
+    STAGE = "registry"
+    n_reg = emit_registry(repo, feats, out, done, methods)
     print("rs2lean: wrote %d constants, %d functions, %d file operations, %d engine functions, %d flush definitions, "
-          "%d API definitions (features: %s)" % (len(C), len(F), n_io, n_eng, n_fl, n_api, ",".join(sorted(feats))))
+          "%d API definitions, %d registry definitions (features: %s)"
+          % (len(C), len(F), n_io, n_eng, n_fl, n_api, n_reg, ",".join(sorted(feats))))
 
 
 if __name__ == "__main__":
@@ -6542,12 +7177,12 @@ if __name__ == "__main__":
         # nothing was emitted; a Funcs.lean left over from an earlier run must not be mistaken for
         # the translation of this source: replace it by a file that fails to build with the reason
         # (a failure in the FileOps stage leaves the Consts.lean / Funcs.lean just written in place, a failure
-        # in the Engine stage also the FileOps.lean, … in the last stage, ApiOps.lean, all the others)
+        # in the Engine stage also the FileOps.lean, … a failure in the last stage, Registry.lean, all the others)
         if len(sys.argv) > 2 and os.path.isdir(sys.argv[2]):
             msg = ("rs2lean: UNSUPPORTED: %s" % e).replace("\\", "\\\\").replace('"', '\\"').replace("\n", " ")
-            for name in (["Funcs.lean"] if STAGE == "funcs" else []) + (["FileOps.lean"] if STAGE in ("funcs", "fileops") else []) + \
-                    (["Engine.lean"] if STAGE in ("funcs", "fileops", "engine") else []) + \
-                    (["FlushOps.lean"] if STAGE != "api" else []) + ["ApiOps.lean"]:
+            stages = ["funcs", "fileops", "engine", "flush", "api", "registry"]
+            files = ["Funcs.lean", "FileOps.lean", "Engine.lean", "FlushOps.lean", "ApiOps.lean", "Registry.lean"]
+            for name in files[stages.index(STAGE):]:
                 with open(os.path.join(sys.argv[2], name), "w") as fh:
                     fh.write("/-! GENERATED by tools/rs2lean.py — the translation FAILED, nothing was emitted. -/\n")
                     fh.write('#eval (throw (IO.userError "%s") : IO Unit)\n' % msg)
